@@ -809,11 +809,170 @@ Qed.
 Lemma run_started_success i : o_started (run i) = false -> o_success (run i) = false.
 Proof. run_cases i; cbn; try discriminate; reflexivity. Qed.
 
+(* ------------------------------------------------------------------ the hook's environment *)
+
+(* the last entry with key k *)
+Fixpoint lookup_last (l : env) (k : N) : option eval :=
+  match l with
+  | [] => None
+  | (k', v) :: r => match lookup_last r k with
+                    | Some x => Some x
+                    | None => if k' =? k then Some v else None
+                    end
+  end.
+
+Lemma lookup_last_none l k : lookup_last l k = None <-> existsb (fun e => fst e =? k) l = false.
+Proof.
+  induction l as [|[k' v] r IH]; cbn [lookup_last existsb fst]; [tauto|].
+  destruct (lookup_last r k) eqn:L.
+  - split; [discriminate|]. intros H. apply orb_false_iff in H as [_ H]. apply IH in H. discriminate.
+  - rewrite (proj1 IH eq_refl), orb_false_r. destruct (k' =? k); split; auto; discriminate.
+Qed.
+
+(* os/exec's de-duplication: the child finds the LAST value of a variable *)
+Lemma getenv_dedup l k : getenv (dedup_env l) k = lookup_last l k.
+Proof.
+  induction l as [|[k' v] r IH]; cbn [dedup_env lookup_last getenv]; [reflexivity|].
+  destruct (existsb (fun e => fst e =? k') r) eqn:EX.
+  - rewrite IH. destruct (lookup_last r k) eqn:L; [reflexivity|].
+    destruct (N.eqb_spec k' k) as [->|NE]; [|reflexivity].
+    apply lookup_last_none in L. congruence.
+  - cbn [getenv]. destruct (N.eqb_spec k' k) as [->|NE].
+    + apply lookup_last_none in EX. now rewrite EX.
+    + rewrite IH. now destruct (lookup_last r k).
+Qed.
+
+Lemma lookup_last_app a b k :
+  lookup_last (a ++ b) k = match lookup_last b k with Some x => Some x | None => lookup_last a k end.
+Proof.
+  induction a as [|[k' v] r IH]; cbn [app lookup_last].
+  - now destruct (lookup_last b k).
+  - rewrite IH. destruct (lookup_last b k); [reflexivity|]. reflexivity.
+Qed.
+
+(* every key occurs once in the child's environment *)
+Lemma dedup_keys l k : In k (map fst (dedup_env l)) -> existsb (fun e => fst e =? k) l = true.
+Proof.
+  induction l as [|[k' v] r IH]; cbn [dedup_env map existsb fst]; [intros []|].
+  destruct (existsb (fun e => fst e =? k') r) eqn:EX.
+  - intros H. rewrite (IH H). apply orb_true_r.
+  - cbn [map fst]. intros [<-|H]; [now rewrite N.eqb_refl | rewrite (IH H); apply orb_true_r].
+Qed.
+
+Lemma dedup_nodup l : NoDup (map fst (dedup_env l)).
+Proof.
+  induction l as [|[k v] r IH]; cbn [dedup_env]; [constructor|].
+  destruct (existsb (fun e => fst e =? k) r) eqn:EX; [exact IH|].
+  cbn [map fst]. constructor; [|exact IH]. intros H. apply dedup_keys in H. congruence.
+Qed.
+
+Lemma executor_env_nonempty p l : l <> [] -> executor_env p l = l.
+Proof. unfold executor_env. cbn [app]. destruct l; [contradiction|reflexivity]. Qed.
+
+Lemma hook_envs_nonempty inh : hook_envs inh <> [].
+Proof. unfold hook_envs, per_exec_vars. destruct inh; discriminate. Qed.
+
+(* a contract variable: one of the six set by Hook.Run *)
+Definition is_contract_var (k : N) : bool := existsb (fun e => fst e =? k) per_exec_vars.
+
+Lemma getenv_child e k :
+  getenv (child_env e) k =
+  match lookup_last per_exec_vars k with Some x => Some x | None => lookup_last (os_environ e) k end.
+Proof.
+  unfold child_env. rewrite getenv_dedup, (executor_env_nonempty _ _ (hook_envs_nonempty _)).
+  unfold hook_envs. apply lookup_last_app.
+Qed.
+
+(* WHATEVER the operator's own environment holds - any variables, any values, duplicates - each of
+   the six variables, as the hook finds it, is the path of this execution's own file *)
+Theorem child_env_own e k f : In (k, Own f) per_exec_vars -> getenv (child_env e) k = Some (Own f).
+Proof.
+  intros H. rewrite getenv_child.
+  cbn in H. repeat (destruct H as [H|H]; [inversion H; subst; reflexivity|]). destruct H.
+Qed.
+
+(* every other variable is inherited with the operator's (last) value, and only those *)
+Theorem child_env_inherits e k : is_contract_var k = false ->
+  getenv (child_env e) k = lookup_last (os_environ e) k.
+Proof.
+  intros H. rewrite getenv_child. apply lookup_last_none in H. now rewrite H.
+Qed.
+
+Theorem child_env_nodup e : NoDup (map fst (child_env e)).
+Proof. apply dedup_nodup. Qed.
+
+(* the `--config` call: the hook finds the operator's environment, nothing else *)
+Theorem config_env_inherits e k : getenv (config_env e) k = lookup_last (os_environ e) k.
+Proof.
+  unfold config_env. rewrite getenv_dedup, app_nil_r. unfold executor_env. cbn [app].
+  now destruct (os_environ e).
+Qed.
+
+Lemma written_own e k f c : In (k, Own f) per_exec_vars -> written (child_env e) k f c = c.
+Proof. intros H. unfold written. rewrite (child_env_own e k f H). now rewrite N.eqb_refl. Qed.
+
+(* the outputs the hook writes are the ones read back: nothing in the operator's environment can divert them *)
+Theorem readback_id i : readback i = i.
+Proof.
+  unfold readback.
+  rewrite !written_own by (cbn; tauto).
+  now destruct i.
+Qed.
+
+Theorem exec_is_run i : exec i = run i.
+Proof. unfold exec. now rewrite readback_id. Qed.
+
+(* the outcome does not depend on the operator's environment *)
+Theorem exec_env_irrelevant i e :
+  exec (mkIn (i_exit i) (i_metrics i) (i_patch i) (i_admission i) (i_conversion i) (i_concurrent i) (i_namelen i) e)
+  = exec i.
+Proof. rewrite !exec_is_run. unfold run. cbn [i_exit i_metrics i_patch i_admission i_conversion i_namelen]. reflexivity. Qed.
+
+Theorem no_foreign_written i : foreign_written i = false.
+Proof.
+  unfold foreign_written. cbn [existsb].
+  rewrite (child_env_own _ var_metrics file_metrics), (child_env_own _ var_patch file_patch),
+          (child_env_own _ var_admission file_admission), (child_env_own _ var_conversion file_conversion)
+    by (cbn; tauto).
+  reflexivity.
+Qed.
+
+(* the environment clause of the property holds of the model on every input *)
+Lemma seen_view i ks k f :
+  In k ks -> In (k, Own f) per_exec_vars -> seen (env_view i ks) k = Some (Own f).
+Proof.
+  intros Hk Hf. unfold env_view. induction ks as [|k0 r IH]; [destruct Hk|].
+  cbn [map seen]. destruct (N.eqb_spec k0 k) as [->|NE].
+  - now apply child_env_own.
+  - destruct Hk as [->|Hk]; [contradiction|]. now apply IH.
+Qed.
+
+Lemma view_points_to_own i ks :
+  incl [var_context; var_metrics; var_patch; var_admission; var_conversion] ks ->
+  points_to_own (env_view i ks) = true.
+Proof.
+  intros INC. pose proof (seen_view i ks) as S.
+  unfold points_to_own, contract. cbn [forallb fst snd].
+  rewrite (S var_context file_context), (S var_metrics file_metrics), (S var_patch file_patch),
+          (S var_admission file_admission), (S var_conversion file_conversion);
+    try (apply INC; cbn; tauto); try (cbn; tauto).
+Qed.
+
+Theorem model_P_env i o : P_env (model_obs (i, o)) = true.
+Proof.
+  unfold P_env, model_obs. cbn [ob_envs].
+  destruct (o_started (exec i)); [|reflexivity].
+  apply forallb_forall. intros v Hv. apply repeat_spec in Hv. subst v.
+  apply view_points_to_own. unfold query_vars. intros k Hk. apply in_or_app. left.
+  cbn in Hk |- *. tauto.
+Qed.
+
 (* the logic half of the property holds of the model for every input
-   (the OS half is taken over from the implementation's observation, see C12_Corr.model_obs) *)
+   (of the OS half the environment clause is [model_P_env]; the rest is taken over from the
+   implementation's observation, see C12_Corr.model_obs) *)
 Theorem model_P_logic i o : P_logic i (model_obs (i, o)) = true.
 Proof.
-  unfold P_logic, model_obs.
+  unfold P_logic, model_obs. rewrite exec_is_run.
   cbn [ob_bad ob_started ob_status ob_tmp_after ob_metric_applied ob_patch_applied].
   rewrite run_remaining. cbn [negb andb N.eqb]. rewrite andb_true_r.
   destruct (o_started (run i)) eqn:S.
